@@ -170,7 +170,10 @@ def _parse_coverage(out):
                 span = re.sub(r'"[^"]*"', '""', span)
                 defined = set(re.findall(r"^([A-Za-z_]\w*)(?:\([^)]*\))?\s*==", "\n".join(lines), re.M))
                 cands = [c for c in re.findall(r"([A-Za-z_]\w*)\s*(?:\(|$|\n|/\\|\\/)", span) if c in defined]
-                if cands:
+                after_colon = [c for c in re.findall(r":\s*\(?\s*([A-Za-z_]\w*)", span) if c in defined]
+                if after_colon:
+                    name = after_colon[-1]      # \E x \in S(..) : Action(x)
+                elif cands:
                     name = cands[0]
                 else:
                     mm = re.search(r":\s*\(?\s*([A-Za-z_]\w*)", span) or re.search(r"([A-Z]\w*)\(", span)
